@@ -223,9 +223,19 @@ def oracle_c06(g, scfg, originals, stage):
     flat = M.Flat(scfg)
     nb = M.check_tables(flat)
     stats = {}
+    try:
+        M.check_dataflow(flat, M.top_head(scfg), stats)
+    except M.Viol as v:
+        # after branch restructuring a path-insensitive analysis over-approximates (an arm that is only taken for one
+        # value of a head's variable is merged with the other arms), so the static clause is asserted for the stages
+        # before it and only counted afterwards; the valuation-exact exploration below decides those.
+        if stage in ("branch", "restructure") and v.clause in ("V-must", "V-must-latch"):
+            stats["static_must_overapprox"] = 1
+        else:
+            raise
     s1, t1 = M.walk_flat(g, scfg, flat, stats)
     variables = {b.variable for b in flat.blocks.values() if isinstance(b, SyntheticBranch)}
-    return len(variables) >= 2, dict(states=s1, transitions=t1, branching_blocks=nb, stale_nonlatch_reads=stats.get("stale_nonlatch_reads", 0))
+    return len(variables) >= 2, dict(states=s1, transitions=t1, branching_blocks=nb, stale_nonlatch_reads=stats.get("stale_nonlatch_reads", 0), range_may_excess=stats.get("range_may_excess", 0), static_must_overapprox=stats.get("static_must_overapprox", 0))
 
 
 def oracle_c16(g, scfg, originals, stage):
